@@ -1,23 +1,28 @@
 // Harness for C02, receive paths ("a decoded message owns its bytes"): real connections fed from a REUSED
 // buffer while earlier messages are still queued or inside their handler.
 //
-//	rxtcp <split> <nA> <nB> <frame>*   a tcp/client.Conn over net.Pipe (synctest bubble).  The peer pipelines the
-//	      nA frames (written in chunks of <split> bytes, 0 = one write); the handler of the first message blocks, the
-//	      others wait in the receive queue.  Then the nB frames (different content) are written: the session reads
-//	      them into its stream buffer over the bytes of the first batch.  Then the handler is released.
-//	rxudp <n> <datagram>*             udp/client.Conn.Process called n times with ONE buffer that is overwritten
-//	      after every call, the first handler blocking meanwhile.
+//		rxtcp <split> <nA> <nB> <frame>*   a tcp/client.Conn over net.Pipe (synctest bubble).  The peer pipelines the
+//		      nA frames (written in chunks of <split> bytes, 0 = one write); the handler of the first message blocks, the
+//		      others wait in the receive queue.  Then the nB frames (different content) are written: the session reads
+//		      them into its stream buffer over the bytes of the first batch.  Then the handler is released.
+//		rxudp <n> <datagram>*             udp/client.Conn.Process called n times with ONE buffer that is overwritten
+//		      after every call, the first handler blocking meanwhile.
 //
-//	rxmon <tcp-client|tcp-server|udp> <split> <n> <frame>*   the same connections (tcp-server: the connection a real
-//	      tcp.Server makes for an accepted stream, options only) with a REQUEST MONITOR that drops every message whose
-//	      code is 0.04 (DELETE).  Stream frames are written in chunks of <split> bytes (0 = one write: a dropped frame and
-//	      the frame behind it are parsed by the same processBuffer call).  Output `rxm <delivered> | <msg> | …`: a
-//	      message decoded behind a dropped one must have the fields of a fresh decode of its own bytes.
+//		rxmon <tcp-client|tcp-server|udp> <split> <n> <frame>*   the same connections (tcp-server: the connection a real
+//		      tcp.Server makes for an accepted stream, options only) with a REQUEST MONITOR that drops every message whose
+//		      code is 0.04 (DELETE).  Stream frames are written in chunks of <split> bytes (0 = one write: a dropped frame and
+//		      the frame behind it are parsed by the same processBuffer call).  Output `rxm <delivered> | <msg> | …`: a
+//		      message decoded behind a dropped one must have the fields of a fresh decode of its own bytes.
 //
-//	usrv2 <delayms> <npeers> <k> (<peer>:<datagram>)*   a real udp.Server on a loopback socket whose OnNewConn callback
-//	      sleeps <delayms> ms; the FIRST datagram of every peer is sent back to back (nothing is waited for), the remaining
-//	      ones after those were delivered.  Output `usrv2 <total> | p0 <msg> ; <msg> | p1 … | unknown=<…>`: per peer, what
-//	      the handler of that peer's connection received.
+//		usrv2 <delayms> <npeers> <k> (<peer>:<datagram>)*   a real udp.Server on a loopback socket whose OnNewConn callback
+//		      sleeps <delayms> ms; the FIRST datagram of every peer is sent back to back (nothing is waited for), the remaining
+//		      ones after those were delivered.  Output `usrv2 <total> | p0 <msg> ; <msg> | p1 … | unknown=<…>`: per peer, what
+//		      the handler of that peer's connection received.
+//
+//	  rxack <n> <step>*   a real udp/client.Conn whose handler sets no response (the connection answers a confirmable request
+//	        with an Empty ACK); steps `r:<mid>:<tok>:<pay>` = new confirmable request, `d:<i>` = duplicate of the i-th one
+//	        (answered from the response cache: the cached datagram is decoded into a response message that already carries the
+//	        request's token).  Output `rxack <k> <datagram>*` = everything the connection wrote.
 //
 // Output: `rx <delivered> | <msg 0 on handler entry> | <msg 0 after the overwrite> | <msg 1> | …` — every message
 // as the application sees it after the later input has been read.
@@ -333,6 +338,69 @@ func runUDPServerPeers(delayMs, npeers int, sends [][2]any) string {
 	return fmt.Sprintf("usrv2 %d | %s | unknown=%s", total, strings.Join(parts, " | "), rig.Unknown(ports))
 }
 
+func runUDPAck(t *testing.T, steps []string) (out string) {
+	synctest.Test(t, func(t *testing.T) {
+		cc, sess := mem.NewUDPConn(mem.UDPOpts{Mutate: func(cfg *udpclient.Config) {
+			cfg.Handler = func(_ *responsewriter.ResponseWriter[*udpclient.Conn], _ *pool.Message) {}
+		}})
+		synctest.Wait()
+		type rq struct {
+			mid      int
+			tok, pay []byte
+		}
+		var news []rq
+		var sent []string
+		buf := make([]byte, 4096)
+		bad := false
+		for _, st := range steps {
+			p := strings.Split(st, ":")
+			var q rq
+			switch {
+			case len(p) == 2 && p[0] == "d":
+				i, e := strconv.Atoi(p[1])
+				if e != nil || i < 0 || i >= len(news) {
+					bad = true
+					continue
+				}
+				q = news[i]
+			case len(p) == 4 && p[0] == "r":
+				mid, e1 := strconv.Atoi(p[1])
+				tok, e2 := lp.ParseHex(p[2])
+				pay, e3 := lp.ParseHex(p[3])
+				if e1 != nil || e2 != nil || e3 != nil {
+					bad = true
+					continue
+				}
+				q = rq{mid, tok, pay}
+				news = append(news, q)
+			default:
+				bad = true
+				continue
+			}
+			d := []byte{0x40 | byte(len(q.tok)), 0x02, byte(q.mid >> 8), byte(q.mid)}
+			d = append(d, q.tok...)
+			d = append(d, 0xb1, 'e')
+			if len(q.pay) > 0 {
+				d = append(append(d, 0xff), q.pay...)
+			}
+			n := copy(buf, d)
+			_ = cc.Process(nil, buf[:n])
+			synctest.Wait()
+			for _, x := range sess.TakeSent() {
+				sent = append(sent, lp.Hex(x.Data))
+			}
+		}
+		if bad {
+			out = "bad-op"
+		} else {
+			out = strings.TrimSpace(fmt.Sprintf("rxack %d %s", len(sent), strings.Join(sent, " ")))
+		}
+		_ = cc.Close()
+		synctest.Wait()
+	})
+	return out
+}
+
 func parseHexList(f []string) ([][]byte, bool) {
 	out := make([][]byte, 0, len(f))
 	for _, s := range f {
@@ -403,6 +471,12 @@ func TestC02RX(t *testing.T) {
 					sends = append(sends, [2]any{p, b})
 				}
 				return runUDPServerPeers(delay, np, sends)
+			case len(f) >= 2 && f[0] == "rxack":
+				n, e := strconv.Atoi(f[1])
+				if e != nil || len(f) != 2+n {
+					return "bad-op"
+				}
+				return runUDPAck(t, f[2:])
 			case len(f) >= 2 && f[0] == "rxudp":
 				n, e := strconv.Atoi(f[1])
 				if e != nil || len(f) != 2+n {
